@@ -3,6 +3,7 @@ package storage
 import (
 	"context"
 	"math/big"
+	"strings"
 
 	"github.com/formancehq/ledger/internal/storage/sqlutils"
 
@@ -107,6 +108,11 @@ func (m *InMemoryStore) InsertLogs(ctx context.Context, logs ...*ledger.ChainedL
 				PreCommitVolumes:  nil,
 				PostCommitVolumes: nil,
 			})
+			for address, accountMetadata := range payload.AccountMetadata {
+				m.updateMetadata(ledger.MetaTargetTypeAccount, address, func(md metadata.Metadata) metadata.Metadata {
+					return md.Merge(accountMetadata)
+				})
+			}
 		case ledger.RevertedTransactionLogPayload:
 			tx := collectionutils.Filter(m.transactions, func(transaction *ledger.ExpandedTransaction) bool {
 				return transaction.ID.Cmp(payload.RevertedTransactionID) == 0
@@ -119,10 +125,53 @@ func (m *InMemoryStore) InsertLogs(ctx context.Context, logs ...*ledger.ChainedL
 				PostCommitVolumes: nil,
 			})
 		case ledger.SetMetadataLogPayload:
+			m.updateMetadata(payload.TargetType, payload.TargetID, func(md metadata.Metadata) metadata.Metadata {
+				return md.Merge(payload.Metadata)
+			})
+		case ledger.DeleteMetadataLogPayload:
+			m.updateMetadata(payload.TargetType, payload.TargetID, func(md metadata.Metadata) metadata.Metadata {
+				md = md.Copy()
+				delete(md, payload.Key)
+				return md
+			})
 		}
 	}
 
 	return nil
+}
+
+// updateMetadata applies a metadata log to its target. An account is created by its first metadata,
+// a transaction has to exist (as in the SQL projection, metadata of an unknown transaction goes nowhere).
+func (m *InMemoryStore) updateMetadata(targetType string, targetID any, update func(metadata.Metadata) metadata.Metadata) {
+	switch strings.ToUpper(targetType) {
+	case strings.ToUpper(ledger.MetaTargetTypeAccount):
+		address := targetID.(string)
+		for _, account := range m.accounts {
+			if account.Address == address {
+				account.Metadata = update(account.Metadata)
+				return
+			}
+		}
+		m.accounts = append(m.accounts, &ledger.Account{
+			Address:  address,
+			Metadata: update(metadata.Metadata{}),
+		})
+	case strings.ToUpper(ledger.MetaTargetTypeTransaction):
+		var id *big.Int
+		switch v := targetID.(type) {
+		case *big.Int:
+			id = v
+		case uint64:
+			id = new(big.Int).SetUint64(v)
+		default:
+			return
+		}
+		for _, transaction := range m.transactions {
+			if transaction.ID.Cmp(id) == 0 {
+				transaction.Metadata = update(transaction.Metadata)
+			}
+		}
+	}
 }
 
 func (m *InMemoryStore) GetLastTransaction(ctx context.Context) (*ledger.ExpandedTransaction, error) {
